@@ -246,6 +246,47 @@ func (e *emitChecker) matchNLV(pos, term string, obj *vmodel.JVal, v reflect.Val
 	nlv := v.Interface().(vocab.NaturalLanguageValues)
 	plain := obj.Get(term)
 	mp := obj.Get(term + "Map")
+	// entries without a text (or without a tag in a multi-entry list) have nothing to say
+	if len(nlv) > 1 {
+		var kept vocab.NaturalLanguageValues
+		for _, e := range nlv {
+			if len(e.Value) > 0 && len(e.Ref) > 0 {
+				kept = append(kept, e)
+			}
+		}
+		if len(kept) != len(nlv) {
+			if len(kept) == 0 {
+				if (plain != nil && !plain.IsZero()) || (mp != nil && !mp.IsZero()) {
+					e.add(pos, "NaturalLanguageValues", "member-for-unset", "member present although no entry has a text")
+				}
+				return
+			}
+			// what remains must still be a language map under the Map term (or, for one entry, a plain string under the plain term)
+			if mp != nil {
+				if mp.Kind != "object" {
+					e.add(pos, "NaturalLanguageValues", "wrong-json-kind", "the "+term+"Map member must be an object keyed by language, got "+mp.Kind)
+					return
+				}
+				if len(mp.Members) != len(kept) {
+					e.add(pos, "NaturalLanguageValues", "list-length", fmt.Sprintf("%d entries with a text, %d written", len(kept), len(mp.Members)))
+					return
+				}
+				for i, lv := range kept {
+					if mp.Members[i].Name != string(lv.Ref) {
+						e.add(pos, "LangRef", "string-altered", fmt.Sprintf("tag %q written as %q", lv.Ref, mp.Members[i].Name))
+					}
+					e.matchString(pos, "Content", mp.Members[i].Val, string(lv.Value))
+				}
+				return
+			}
+			if plain != nil && len(kept) == 1 {
+				e.matchString(pos, "Content", plain, string(kept[0].Value))
+				return
+			}
+			e.add(pos, "NaturalLanguageValues", "missing-member", "no member for the entries that have a text")
+			return
+		}
+	}
 	if len(nlv) == 1 {
 		if plain == nil {
 			if mp != nil && mp.Kind == "object" && len(mp.Members) == 1 && mp.Members[0].Name == string(nlv[0].Ref) {
@@ -385,6 +426,12 @@ func stringPositions() []stringPos {
 					}, "Content"},
 					stringPos{k, name + "<maptext>", func(v reflect.Value, s string) {
 						v.Field(f.Index).Set(reflect.ValueOf(vocab.NaturalLanguageValues{{Ref: "en", Value: vocab.Content("plain")}, {Ref: "fr", Value: vocab.Content(s)}}))
+					}, "Content"},
+					stringPos{k, name + "<map+empty-entry>", func(v reflect.Value, s string) {
+						v.Field(f.Index).Set(reflect.ValueOf(vocab.NaturalLanguageValues{{Ref: "en", Value: vocab.Content(s)}, {Ref: "fr", Value: vocab.Content("")}}))
+					}, "Content"},
+					stringPos{k, name + "<map+two-empty>", func(v reflect.Value, s string) {
+						v.Field(f.Index).Set(reflect.ValueOf(vocab.NaturalLanguageValues{{Ref: "de", Value: nil}, {Ref: "en", Value: vocab.Content(s)}, {Ref: "fr", Value: vocab.Content("")}}))
 					}, "Content"},
 					stringPos{k, name + "<tag>", func(v reflect.Value, s string) {
 						v.Field(f.Index).Set(reflect.ValueOf(vocab.NaturalLanguageValues{{Ref: "en", Value: vocab.Content("plain")}, {Ref: vocab.LangRef(s), Value: vocab.Content("other")}}))
